@@ -5,7 +5,7 @@ From Coq Require Import List NArith Bool Lia.
 Import ListNotations.
 From Snaps Require Import Base.Bytes Base.Lines Base.Assoc Model.Frame Model.Mode Model.Api.
 From Snaps Require Import Proofs.BytesP Proofs.LinesP Proofs.FrameP Proofs.ApiP Proofs.StepP Proofs.YamlP
-  Proofs.HistoryP.
+  Proofs.HistoryP Proofs.YamlStoreP.
 
 (* the stored body is the document with exactly its `---` lines replaced by the escape token:
    comments, key order, separators, blank lines and every other byte are kept *)
@@ -42,6 +42,39 @@ Theorem C18_invalid_writes_nothing : forall s c test,
     s_events s' = bump (Failed EInvalid) (s_events s).
 Proof. exact yaml_invalid. Qed.
 Print Assumptions C18_invalid_writes_nothing.
+
+(* storing loses nothing: two documents with the same stored text are the same document, byte for byte *)
+Theorem C18_store_injective : forall y y',
+  no_token_line y -> no_token_line y' -> escape y = escape y' -> y = y'.
+Proof. exact yaml_store_injective. Qed.
+Print Assumptions C18_store_injective.
+
+(* a multi-document stream (`---` separators, block scalars containing `---`) is stored as ONE body: no stored
+   line is the entry terminator, so the reader cannot cut the entry short *)
+Theorem C18_store_no_terminator : forall y, ~ In endseq (split_nl (escape y)).
+Proof. exact yaml_store_no_terminator. Qed.
+Print Assumptions C18_store_no_terminator.
+
+(* presence of a final newline: storing commutes with appending one ... *)
+Theorem C18_final_newline_present : forall y, escape (y ++ [nl]) = (escape y ++ [nl])%list.
+Proof. exact yaml_store_final_newline. Qed.
+Print Assumptions C18_final_newline_present.
+
+(* ... absence: the last (unterminated) line of the stored text is the last line of the document *)
+Theorem C18_final_newline_absent : forall y l,
+  last (split_nl y) [] = l -> last (split_nl (escape y)) [] = (if beq l endseq then token else l).
+Proof. exact yaml_store_no_final_newline. Qed.
+Print Assumptions C18_final_newline_absent.
+
+Theorem C18_line_count_kept : forall y, length (split_nl (escape y)) = length (split_nl y).
+Proof. exact yaml_store_line_count. Qed.
+Print Assumptions C18_line_count_kept.
+
+Example C18_store_witnesses :
+  (no_token_line wys_doc /\ no_token_line wys_doc' /\ wys_doc <> wys_doc' /\ In endseq (split_nl wys_doc)) /\
+  escape wys_doc <> escape wys_doc' /\
+  (last (split_nl wys_doc) [] = B "b: 2" /\ last (split_nl (escape wys_doc)) [] = B "b: 2").
+Proof. exact (conj yaml_store_injective_witness (conj yaml_store_injective_applied yaml_store_no_final_newline_witness)). Qed.
 
 (* non-vacuity: every theorem of this file that has hypotheses has a concrete, non-trivial instance meeting ALL of them
    (lemmas <Theorem>_witness / <Theorem>_applied in Proofs/WitnessesP.v); a representative one is restated here *)
